@@ -131,6 +131,15 @@ type c12Item struct {
 
 // every item is self-contained or uses only definitions made by earlier items of the battery
 var c12Battery = []c12Item{
+	// The first items take EVERY frame of the pool of recycled frames (32) for a function that does not panic and whose
+	// deferred call recovers: whatever an earlier, aborted evaluation left attached to a recycled frame (it may have been
+	// registered as "the panicking function") shows up as a non-nil recover(). The recursion is started from top level,
+	// so that the first frame taken from the pool already belongs to such a function.
+	{"pool-drain-decl", `var c12acc []interface{}; func c12drainRec(acc *[]interface{}) { *acc = append(*acc, recover()) }; ` +
+		`func c12drain(n int, acc *[]interface{}) { defer c12drainRec(acc); if n > 0 { c12drain(n-1, acc) } }; ` +
+		`func c12nonnil(l []interface{}) (n int) { for _, x := range l { if x != nil { n++ } }; return n }`, ""},
+	{"pool-drain-recover-nil", `c12drain(40, &c12acc); O(len(c12acc), c12nonnil(c12acc))`, ""},
+	{"pool-drain-closure-recover-nil", `O(func() (bad int) { var f func(n int); f = func(n int) { defer func() { if recover() != nil { bad++ } }(); if n > 0 { f(n - 1) } }; f(40); return }())`, ""},
 	{"defer-order", `O(func() (s string) { for i := 0; i < 3; i++ { defer func(i int) { s += string(rune('a' + i)) }(i) }; return "x" }())`, ""},
 	{"recover-in-defer", `O(func() (r interface{}) { defer func() { r = recover() }(); panic("p") }())`, ""},
 	{"recover-outside-defer", `O(func() (r interface{}) { r = recover(); return }())`, ""},
